@@ -94,7 +94,7 @@ func c16NewDep(name, key, rootURL, cookie string, maxAge time.Duration) *c16Dep 
 func c16GenAssertion(c *core.Ctx, o *so.Oracle) *saml.Assertion {
 	r := c.Rng
 	a := o.Assertion(so.AssertionSpec{RequestID: "r", NameID: "user-" + fmt.Sprint(r.Intn(1000))})
-	names := []string{"uid", "mail", "groups", "urn:oid:1.2.3", "role", ""}
+	names := []string{"uid", "mail", "groups", "urn:oid:1.2.3", "role", "", "https://hr.example.com/claims/role", "http://schemas.xmlsoap.org/ws/2005/05/identity/claims/emailaddress", "https://idp.example.com/attr/groups/", "urn:mace:dir:attribute-def:mail"}
 	var sts []saml.AttributeStatement
 	for s := 1 + r.Intn(3); s > 0; s-- {
 		var st saml.AttributeStatement
@@ -533,7 +533,14 @@ func c16Mutants(c *core.Ctx, d *c16Dep, tok string, mintAt time.Time, a *saml.As
 		}
 		fx.SetNow(at)
 		if t, err := od.mint(c, a); err == nil {
-			refuse("token-of-"+name, "other-deployment:"+name, t)
+			if c.Rng.Intn(2) == 0 {
+				// the token is used where it belongs first (and accepted there), then replayed here: what another deployment
+				// in the same process has verified is no credential for this one
+				c16Judge(c, od, "own-token-at-origin:"+name, "origin-accepts-own-token", od.cookie+"="+t, at, true, false, a, none)
+				refuse("token-of-"+name+"-after-use-at-origin", "other-deployment-after-use:"+name, t)
+			} else {
+				refuse("token-of-"+name, "other-deployment:"+name, t)
+			}
 		}
 	}
 }
